@@ -139,3 +139,83 @@ def known_f11(args):
     k = args['k']
     a2 = (k // (9 * 7 * 7)) % 7
     return ACTIONS[a2] not in ('absent', 'upload+delete', 'delete-only')
+
+
+# =========================================================================== S3-compatible and B2 adapters against fake services
+from vt import fakes, rt  # noqa: E402
+
+RNAMES = ['data/ab/cd', 'data/abc/x', 'data-old/y', 'sp ace/%41#+.bin', 'a', 'data/ab/ce-é', 'b/1', 'b/2', 'b/3']
+
+
+def remote_store_case(kind, acts, names, page):
+    svc = fakes.FakeS3(page=page) if kind == 's3' else fakes.FakeB2(page=page)
+    be = fakes.s3_backend(svc) if kind == 's3' else fakes.b2_backend(svc)
+    loop = rt.MiniLoop()
+    model = {}
+
+    async def collect(agen):
+        return [x async for x in agen]
+
+    async def go():
+        for i, (name, a) in enumerate(zip(names, acts)):
+            act = ACTIONS[a]
+            if act == 'absent':
+                continue
+            if act.startswith('upload'):
+                data = _payload(i, False)
+                await be.upload(name, data)
+                model[name] = data
+            if act.startswith('stream'):
+                data = _payload(i, True)
+                await be.upload_stream(name, io.BytesIO(data), len(data), CHUNK)
+                model[name] = data
+            if act in ('upload+delete', 'delete-only'):
+                await be.delete(name)
+                await be.delete(name)
+                model.pop(name, None)
+            if act == 'upload+stream-overwrite':
+                data = _payload(i + 3, True)
+                await be.upload_stream(name, io.BytesIO(data), len(data), CHUNK)
+                model[name] = data
+            if act == 'stream+upload-empty':
+                await be.upload(name, b'')
+                model[name] = b''
+        for name in names:
+            ex = await be.exists(name)
+            if ex != (name in model):
+                return False, f'{kind}: exists({name!r}) = {ex}, model says {name in model}'
+            if name in model:
+                if await be.download(name) != model[name]:
+                    return False, f'{kind}: download({name!r}) differs from the last upload'
+                out = io.BytesIO()
+                await be.download_stream(name, out, CHUNK)
+                if out.getvalue() != model[name]:
+                    return False, f'{kind}: download_stream({name!r}) differs from the last upload'
+        for p in PREFIXES + ['b/']:
+            got = await collect(be.list_files(p))
+            want = sorted(n for n in model if n.startswith(p))
+            if sorted(got) != want or len(got) != len(set(got)):
+                return False, f'{kind}: list_files({p!r}) page size {page} = {got}, expected {want}'
+        return True, ''
+    try:
+        return loop.run_until_complete(go())
+    except RecursionError:
+        return False, f'{kind}: unbounded recursion (re-authentication loop)'
+    except Exception as e:
+        return False, f'{kind}: operation raised {e!r}'
+
+
+def e_remote(k: int) -> bool:
+    """S3-compatible and B2 adapters == dict, listing pages of 1, 2 or 1000 objects.
+    pre: shard(2 * 3 * 7 * 7 * 7 * 7)[0] <= k < shard(2 * 3 * 7 * 7 * 7 * 7)[1]
+    post: _
+    """
+    ki, pi, a0, a1, a2, a3 = digits(k, [2, 3, 7, 7, 7, 7])
+    with NoTracing():
+        names = [RNAMES[0], RNAMES[1], RNAMES[2], RNAMES[3], RNAMES[6], RNAMES[7], RNAMES[8]]
+        acts = [a0, a1, a2, a3, 1, 2, 1]
+        ok, msg = remote_store_case(['s3', 'b2'][ki], acts, names, [1, 2, 1000][pi])
+        tick('e_remote', [['s3', 'b2'][ki], [1, 2, 1000][pi], a0, a1, a2, a3])
+        if not ok:
+            _say(msg)
+        return ok
